@@ -52,11 +52,16 @@ fn op(prune_ms: u32) -> impl Strategy<Value = Op> {
         8 => Just(Op::Tick),
         1 => Just(Op::Heartbeat),
         3 => prop_oneof![0u32..=3000, 0u32..=30_000].prop_map(|ms| Op::Advance { ms }),
+        // a fraction of an interval passes (PRUNEs crossing on the wire, a GRAFT answered with a second
+        // PRUNE): the next update of the same pair is later but usually lands in the same wheel slot
+        2 => (1u32..=400).prop_map(|ms| Op::Advance { ms }),
+        // the node's own prune_backoff again (what make_prune / handle_prune record by default)
+        2 => (0u8..2, 0u8..3).prop_map(move |(topic, peer)| Op::Update { topic, peer, ms: prune_ms }),
     ]
 }
 
 fn strategy(max_ops: usize) -> impl Strategy<Value = Case> {
-    (1u8..=20, 0u8..=3, prop_oneof![4 => Just(1000u16), 1 => Just(700u16), 1 => Just(1500u16)]).prop_flat_map(move |(prune_backoff_s, slack, hb_ms)| {
+    (prop_oneof![3 => 1u8..=20, 1 => 1u8..=2], prop_oneof![4 => 0u8..=3, 1 => 3u8..=5], prop_oneof![4 => Just(1000u16), 1 => Just(700u16), 1 => Just(1500u16)]).prop_flat_map(move |(prune_backoff_s, slack, hb_ms)| {
         proptest::collection::vec(op(prune_backoff_s as u32 * 1000), 1..=max_ops).prop_map(move |ops| Case { prune_backoff_s, slack, hb_ms, ops })
     })
 }
@@ -86,10 +91,30 @@ fn check(case: &Case) -> Outcome {
     let mut heartbeats = 0usize;
     let mut forgotten = 0usize;
     let mut checked_active = 0usize;
+    // label-only model of the wheel (never used by the oracle): slot the pair was last filed under
+    let mut slot_of: BTreeMap<(u8, u8), usize> = BTreeMap::new();
+    let hb_count = |ms: u32| (ms as u64).div_ceil(case.hb_ms as u64) as usize;
+    let mut refiled_same_slot = false;
+    let mut wrapped_update = false;
+    let mut visited_before_expiry = false;
+    let mut visited_inside_slack_window_before_expiry = false;
 
     for (step, op) in case.ops.iter().enumerate() {
         match op {
             Op::Update { topic, peer, ms } => {
+                let pair = (*topic % 2, *peer % 3);
+                let before = sut.get_backoff_time(&topics[pair.0 as usize], &peers[pair.1 as usize]).map(|i| i.verif_since_start().as_millis() as u64);
+                let takes_effect = before.is_none_or(|b| b < now_ms() + *ms as u64);
+                if takes_effect {
+                    let slot = (heartbeats + hb_count(*ms) + case.slack as usize) % ring;
+                    if before.is_some() && slot_of.get(&pair) == Some(&slot) {
+                        refiled_same_slot = true;
+                    }
+                    if hb_count(*ms) + case.slack as usize >= ring {
+                        wrapped_update = true;
+                    }
+                    slot_of.insert(pair, slot);
+                }
                 sut.update_backoff(&topics[*topic as usize % 2], &peers[*peer as usize % 3], Duration::from_millis(*ms as u64));
                 let e = now_ms() + *ms as u64;
                 let g = model.entry((*topic % 2, *peer % 3)).or_insert(Granted { expiry: e, late_heartbeats: 0 });
@@ -104,6 +129,21 @@ fn check(case: &Case) -> Outcome {
             Op::Tick | Op::Heartbeat => {
                 if matches!(op, Op::Tick) {
                     verif_clock::advance(hb);
+                }
+                {
+                    let now = now_ms();
+                    for (pair, slot) in &slot_of {
+                        if *slot == heartbeats % ring {
+                            if let Some(g) = model.get(pair) {
+                                if now < g.expiry {
+                                    visited_before_expiry = true;
+                                    if g.expiry - now <= slack_ms {
+                                        visited_inside_slack_window_before_expiry = true;
+                                    }
+                                }
+                            }
+                        }
+                    }
                 }
                 sut.heartbeat();
                 heartbeats += 1;
@@ -148,6 +188,21 @@ fn check(case: &Case) -> Outcome {
     }
     if checked_active > 0 {
         labels.push("active-checked");
+    }
+    if refiled_same_slot {
+        labels.push("later-update-refiled-under-the-same-wheel-slot");
+        if forgotten > 0 {
+            labels.push("same-slot-refile-and-forget-checked");
+        }
+    }
+    if wrapped_update {
+        labels.push("update-wraps-around-the-wheel");
+    }
+    if visited_before_expiry {
+        labels.push("slot-visited-by-heartbeat-before-expiry");
+    }
+    if visited_inside_slack_window_before_expiry {
+        labels.push("slot-visited-within-slack-before-expiry");
     }
     Outcome::pass_l(long_then_ring && checked_active > 0, labels)
 }
@@ -251,6 +306,8 @@ fn bcheck(case: &BCase) -> Outcome {
     let mut refused_grafts = 0usize;
     let mut regrafted_after_forget = 0usize;
     let mut long_backoff = false;
+    let mut regrafted_by_heartbeat_after_expiry = 0usize;
+    let mut forget_bound_evaluated = 0usize;
 
     let steps: Vec<BOp> = case.ops.iter().flat_map(|op| match op {
         BOp::Ticks { n } => vec![BOp::Tick; *n as usize],
@@ -320,7 +377,11 @@ fn bcheck(case: &BCase) -> Outcome {
                         ensure!(a < b, "C32:graft-during-backoff-not-penalised", detail());
                     }
                 }
+            } else if matches!(op, BOp::Tick) && !in_mesh_before && in_mesh && late_heartbeats < ring {
+                // the usual way back: the first heartbeat that finds the backoff forgotten grafts the peer
+                regrafted_by_heartbeat_after_expiry += 1;
             } else if late_heartbeats >= ring && matches!(op, BOp::Tick) && !in_mesh_before {
+                forget_bound_evaluated += 1;
                 // forgotten: the mesh is below mesh_n_low and the peer is the only candidate
                 // (only assert when scoring cannot veto the graft)
                 if !case.scoring {
@@ -347,6 +408,12 @@ fn bcheck(case: &BCase) -> Outcome {
     if regrafted_after_forget > 0 {
         labels.push("regrafted-after-forget");
     }
+    if regrafted_by_heartbeat_after_expiry > 0 {
+        labels.push("regrafted-by-heartbeat-after-expiry-before-the-bound");
+    }
+    if forget_bound_evaluated > 0 {
+        labels.push("forget-bound-evaluated");
+    }
     if long_backoff {
         labels.push("backoff>prune_backoff");
     }
@@ -361,7 +428,7 @@ pub fn run(ctx: &mut Ctx) {
     ctx.assume("'eventually forgets' is bounded as: once the clock is strictly past expiry + slack*heartbeat_interval, a full ring (ceil(prune_backoff/interval)+slack+1) of heartbeats removes the entry");
     ctx.check::<Case>(
         "storage",
-        "<=60 ops (update(topic,peer,d) with d up to 5x prune_backoff, tick = advance one interval + heartbeat, bare heartbeat, advance) on the real BackoffStorage, 3 peers x 2 topics, prune_backoff 1..20 s, slack 0..3, interval 0.7/1/1.5 s; model = max granted expiry; non-trivial = an update longer than prune_backoff followed by >= ring-size heartbeats while some backoff was still active",
+        "<=60 ops (update(topic,peer,d) with d up to 5x prune_backoff or exactly prune_backoff, tick = advance one interval + heartbeat, bare heartbeat, advance incl. fractions of an interval) on the real BackoffStorage, 3 peers x 2 topics, prune_backoff 1..20 s (25% 1..2 s: small wheels), slack 0..5, interval 0.7/1/1.5 s; labels measure later updates re-filed under the same wheel slot, updates that wrap around the wheel and heartbeats that visit a pair's slot before (and within the slack before) its expiry; model = max granted expiry; non-trivial = an update longer than prune_backoff followed by >= ring-size heartbeats while some backoff was still active",
         ctx.n(80_000, 2_000_000),
         &|| strategy(60).boxed(),
         &check,
